@@ -109,8 +109,68 @@ def playOps : Player → List String → List String
     let (p', o) := playOp p (toks l)
     o :: playOps p' rest
 
+/-! ### Trace acceptance
+Header `@ C19 trace <limit>`; one logged event per line, in the order the real run
+logged them: `submit ok|panic v` (a `Go` call is issued), `start i`, `finish i`,
+`handler v`, `waitcall`, `waitret`.  The acceptor answers `ok` if the machine can
+perform the event after some internal steps, else `not-enabled` (state unchanged).
+Internal steps are chosen angelically by `settle`: finished tasks run their
+cleanup (Done, receive) as early as possible — that only enlarges the set of
+enabled observable events, so a trace is rejected only if NO schedule of the
+machine produces it. -/
+
+/-- Let every task that has left its function and needs no further observable event
+run to its exit (`recovering` with outcome `ok`, `cleanup`, `wgDone`). -/
+def settle (s : St) : St :=
+  (List.range s.tasks.length).foldl (fun s i =>
+    match s.tasks[i]? with
+    | some t =>
+      match t.pc, t.outcome with
+      | .recovering, .ok => (advN s i 3).getD s
+      | .cleanup, _ => (advN s i 2).getD s
+      | .wgDone, _ => (advN s i 1).getD s
+      | _, _ => s
+    | none => s) s
+
+def findIdx? (ts : List Task) (p : Task → Bool) : Option Nat :=
+  (List.range ts.length).find? fun i => match ts[i]? with | some t => p t | none => false
+
+def acceptEv (s : St) (ts : List String) : Option St :=
+  match ts with
+  | "submit" :: o => do
+      let o ← parseOutcome? o
+      s.step (.submit o)
+  | ["start", i] => do
+      let i ← i.toNat?
+      let t ← s.tasks[i]?
+      if t.pc ≠ .new then none else advN (settle s) i 4
+  | ["finish", i] => do
+      let i ← i.toNat?
+      let t ← s.tasks[i]?
+      if t.pc ≠ .running then none else s.step (.adv i)
+  | ["handler", v] => do
+      let v ← v.toInt?
+      let i ← findIdx? s.tasks fun t => t.pc == .recovering && t.outcome == .panic v
+      s.step (.adv i)
+  | ["waitcall"] => s.step .waitCall
+  | ["waitret"] =>
+      let s' := settle s
+      (List.range s'.waiters.length).findSome? fun j => s'.step (.waitRet j)
+  | _ => none
+
+def acceptAll : St → List String → List String
+  | _, [] => []
+  | s, l :: rest =>
+    match acceptEv s (toks l) with
+    | some s' => "ok" :: acceptAll s' rest
+    | none => "not-enabled" :: acceptAll s rest
+
 def runCase (hdr : List String) (ops : List String) : List String :=
   match hdr with
+  | ["trace", limit] =>
+    match limit.toInt? with
+    | some limit => ("cap " ++ toString (limitOf limit)) :: acceptAll (newLimiter limit) ops
+    | none => "bad-op" :: ops.map fun _ => "bad-op"
   | ["lim", limit] =>
     match limit.toInt? with
     | some limit => ("cap " ++ toString (limitOf limit)) :: playOps { s := newLimiter limit } ops
